@@ -4,6 +4,7 @@ package promapi
 
 import (
 	"net/http"
+	"sync"
 	"time"
 
 	"go.uber.org/ratelimit"
@@ -71,4 +72,44 @@ func VerifFailoverGC(fg *FailoverGroup) {
 			return // the cache is shared
 		}
 	}
+}
+
+// VerifCleanerRounds runs the real background cacheCleaner (as StartWorkers starts it, with a short interval) over
+// a cache on a fake clock. In every round one entry is stored with a 1 minute TTL, the clock is advanced by 2
+// minutes and the round waits until the cleaner has removed the entry. A round gives up only after a reference
+// ticker of the same interval, running in this process at the same time, has fired `patience` times - so a
+// starved process cannot be mistaken for a cleaner that stopped. Returns how many rounds saw their entry evicted.
+func VerifCleanerRounds(rounds, patience int) (evicted int) {
+	var mu sync.Mutex
+	now := time.Unix(1700000000, 0)
+	cache := newQueryCache(time.Hour, func() time.Time {
+		mu.Lock()
+		defer mu.Unlock()
+		return now
+	})
+	quit := make(chan bool)
+	const interval = 5 * time.Millisecond
+	go cacheCleaner(cache, interval, quit)
+	defer close(quit)
+	for r := 0; r < rounds; r++ {
+		key := uint64(1000 + r)
+		cache.set(key, r, time.Minute)
+		mu.Lock()
+		now = now.Add(2 * time.Minute)
+		mu.Unlock()
+		ref := time.NewTicker(interval)
+		gone := false
+		for ticks := 0; ticks < patience && !gone; ticks++ {
+			<-ref.C
+			cache.mu.Lock()
+			_, present := cache.entries[key]
+			cache.mu.Unlock()
+			gone = !present
+		}
+		ref.Stop()
+		if gone {
+			evicted++
+		}
+	}
+	return evicted
 }
